@@ -7,10 +7,12 @@ import (
 	"errors"
 	"fmt"
 	"net/http/httptest"
+	"net/netip"
 	"os"
 	"reflect"
 	"strconv"
 	"strings"
+	"syscall"
 	"testing"
 	"time"
 
@@ -29,7 +31,7 @@ import (
 // path (initial, periodic, solicited, final, consistency check, scrape, API),
 // tracking flips between consecutive RAs.
 
-var c04Events = []string{"flip", "tick", "rs-uni", "rs-unspec", "ra-in", "fwd-read-fails"}
+var c04Events = []string{"flip", "tick", "rs-uni", "rs-unspec", "ra-in", "fwd-read-fails", "enobufs+flip"}
 
 type c04Case struct {
 	Lifetime string   `json:"default_lifetime"` // "", "0s", "1234s"
@@ -87,8 +89,9 @@ func c04Run(t *testing.T, c c04Case) (x *vsched.Exec, out [][2]string) {
 			mm := w.mm
 			h := crhttp.NewHandler(w.cctx.ll, w.st, *cfg, nil)
 			fwd := c.Fwd
+			conn := 0 // the connection whose RA is being judged (every re-dial sees another MAC)
 			expectRA := func(forwarding bool, final bool) *ndp.RouterAdvertisement {
-				st := ref.State{Name: "eth0", MAC: w.macOf(0).String(), Forwarding: forwarding}
+				st := ref.State{Name: "eth0", MAC: w.macOf(conn).String(), Forwarding: forwarding}
 				ifi := wantCfg.Interfaces[0]
 				if final {
 					ifi.DefaultLifetime = 0
@@ -102,6 +105,15 @@ func c04Run(t *testing.T, c c04Case) (x *vsched.Exec, out [][2]string) {
 			checkWrites := func(final bool, when string) {
 				ws := w.Writes()
 				for _, wr := range ws[seenWrites:] {
+					if wr.Err != nil {
+						// Not transmitted; it was generated (and, if the lifetime was overridden,
+						// reported) under the forwarding state of that moment.
+						if wr.RA != nil && wr.RA.RouterLifetime == 0 && configured > 0 {
+							nOverridden++
+						}
+						continue
+					}
+					conn = wr.Conn
 					isFinal := final && isAllNodes(wr.Dst) && wr == ws[len(ws)-1]
 					want := expectRA(fwd, isFinal)
 					if !reflect.DeepEqual(wr.RA, want) {
@@ -204,6 +216,23 @@ func c04Run(t *testing.T, c c04Case) (x *vsched.Exec, out [][2]string) {
 					case "rs-unspec":
 						a.inject(rsFrom("::", false))
 						vsched.Sleep(3100 * time.Millisecond)
+					case "enobufs+flip":
+						// The next transmission fails transiently (ENOBUFS) and forwarding changes at
+						// that very moment: whatever is transmitted afterwards (a retry, or the initial
+						// RA of the re-established session) reflects the new state.
+						armed := true
+						w.writeFault = func(_ *fconn, _ netip.Addr) error {
+							if !armed {
+								return nil
+							}
+							armed = false
+							fwd = !fwd
+							w.st.setFwd("eth0", fwd)
+							vsched.Obs("enobufs+flip", "forwarding=%t", fwd)
+							return os.NewSyscallError("sendmsg", syscall.ENOBUFS)
+						}
+						vsched.Sleep(4200 * time.Millisecond)
+						w.writeFault = nil
 					case "fwd-read-fails":
 						// From now on the forwarding sysctl cannot be read. Whatever the
 						// advertiser does then (it gives up), it must not advertise a non-zero
